@@ -29,6 +29,11 @@ def lookup_sites(fi):
         for a in n.walk():
             if isinstance(a, ast.Attribute) and a.attr in KINDS and isinstance(a.value, ast.Call) and call_name(a.value) == "import_module" and a.value.args:
                 out.append((KINDS[a.attr], n, a.value.args[0]))
+            # getattr(importlib.import_module(X), "GeckoPack")
+            if isinstance(a, ast.Call) and isinstance(a.func, ast.Name) and a.func.id == "getattr" and len(a.args) >= 2 \
+                    and isinstance(a.args[0], ast.Call) and call_name(a.args[0]) == "import_module" and a.args[0].args \
+                    and isinstance(a.args[1], ast.Constant) and a.args[1].value in KINDS:
+                out.append((KINDS[a.args[1].value], n, a.args[0].args[0]))
     return g, out
 
 
